@@ -30,7 +30,11 @@ def count_values():
 
 
 def value_numbers():
-    return st.one_of(st.sampled_from([1, 2, 3, 9, 10, 12, 13, 14, 99, 100, 235, 999, 1000, 10**9, 10**18, 10**39]), st.integers(1, 300))
+    # small, dense sets first: equal / adjacent values on several atoms (packed or truncated
+    # invariant codes collide only for particular combinations such as mass m+1 vs rad 4..7,
+    # rad 10 vs mass 1, mass 1000 vs the next element)
+    return st.one_of(
+        st.sampled_from([1, 2, 3, 4, 5, 6, 7, 8, 10, 11, 20, 21, 1000, 1001]),st.sampled_from([1, 2, 3, 9, 10, 12, 13, 14, 99, 100, 235, 999, 1000, 10**9, 10**18, 10**39]), st.integers(1, 300))
 
 
 @st.composite
